@@ -185,8 +185,12 @@ def run_check(prop, tier, seed, extra_batches=None, post=None):
 
 
 def replay(prop, path, extra_batches=None):
+    import json
+    h = json.load(open(path)).get("harness", "").split("::")[-1]
+
     def f(scratch):
-        bs, _ = build("thorough", 0, prop)
+        os.environ["VERIF_INCLUDE_UNMEASURED"] = "1"
+        bs, _ = build("thorough", 0, prop, only=([h] if h.startswith(("ct_", "sh_")) else None))
         if extra_batches:
             bs = extra_batches(scratch) + bs
         return bs
